@@ -540,6 +540,41 @@ func runC13(c *harness.Ctx) {
 			sample(c, map[string]interface{}{"walk_tail": w.M.History[len(w.M.History)-5:], "executions_per_leg": 3})
 		}
 	}
+	// memory BEHIND the length of an argument is not input: the same calls with the spare capacity of
+	// every argument filled with different bytes must give identical results (keys that are proper
+	// prefixes of the protected prefix and of protocol keys, identifiers cut short, short addresses)
+	if mine(c, 4) {
+		protoKey := "ELRONDesdtFUNA-a1b2c3"
+		var results map[string]string
+		for _, fill := range []byte{0xEE, 0x00, 'D', 'e', 0xff} {
+			node.Sentinel = fill
+			cur := map[string]string{}
+			s := NewScn(c.Rand("c13mem"), R, ScnOpts{Shards: 1, Enabled: []string{"C13"}})
+			for n := 1; n <= len(protoKey); n++ {
+				l := s.U.N.Exec(node.Call{Func: FSaveKV, Caller: s.A, Recipient: s.A, Args: [][]byte{[]byte(protoKey[:n]), []byte("v")}, Gas: gen.BigGas})
+				cur[fmt.Sprint("savekv-prefix-", n)] = canonOutput(l.Out, l.Err)
+			}
+			for n := 1; n <= len(s.F1); n++ {
+				l := s.U.N.Exec(gen.TransferCall(s.A, s.Same, s.F1[:n], big.NewInt(1), gen.BigGas))
+				cur[fmt.Sprint("transfer-id-prefix-", n)] = canonOutput(l.Out, l.Err)
+				l = s.U.N.Exec(gen.NFTTransferCall(s.A, s.Same[:n], s.SFT, 1, big.NewInt(1), gen.BigGas))
+				cur[fmt.Sprint("nft-short-destination-", n)] = canonOutput(l.Out, l.Err)
+			}
+			cur["world"] = string(s.U.W.Canonical())
+			if results == nil {
+				results = cur
+			} else {
+				for k, v := range cur {
+					if results[k] != v {
+						s.M.viol("C13", "depends-on-memory-behind-argument", fmt.Sprintf("case %s gives a different result when the spare capacity behind the arguments is filled with %02x instead of ee: %s", k, fill, truncate(diffAt(results[k], v), 400)), &node.Leg{Call: node.Call{Func: "spare-capacity-variants"}})
+					}
+				}
+			}
+			R.Cover("C13/spare-capacity-fill-variants")
+			R.Eval(s.U.N.Seq())
+		}
+		node.Sentinel = 0xEE
+	}
 	// the directed transfer matrix (call types, contract senders, attached calls, numbers with
 	// leading zero bytes): the input must come back untouched from every leg
 	if !c.Race {
